@@ -18,6 +18,9 @@ import (
 
 const MaxTasks = 8
 
+// SpinBeforeSleep: Gosched iterations of a waiting task before it starts sleeping between polls.
+var SpinBeforeSleep = 200
+
 const (
 	stRunnable = iota
 	stParked
@@ -74,6 +77,10 @@ type failCount struct {
 }
 
 type Sched struct {
+	// CheckForeign: verify at every scheduling point that the caller is the task holding the
+	// baton (needed only when repo code starts goroutines of its own; costs a stack walk)
+	CheckForeign bool
+
 	N      int
 	Pol    Policy
 	Replay bool
@@ -180,7 +187,7 @@ func curGoid() uint64 {
 //go:norace
 func (s *Sched) waitBaton(me int) {
 	for i := 0; s.baton != me; i++ {
-		if i < 200 {
+		if i < SpinBeforeSleep {
 			runtime.Gosched()
 		} else {
 			// sleeping creates no happens-before edge either; it only keeps N-1 waiting tasks
@@ -250,7 +257,7 @@ func (s *Sched) point(site, hot string, forceHigh bool) {
 		return
 	}
 	me := s.cur
-	if curGoid() != s.goid[me] {
+	if s.CheckForeign && curGoid() != s.goid[me] {
 		s.St.Foreign++
 		return
 	}
